@@ -14,6 +14,8 @@
  */
 template <typename T> std::tuple<T,T> givens_rotation(T v1, T v2){
     T den = std::sqrt(v1*v1+v2*v2);
+    if(!(den > 0))
+        return std::make_tuple((T)1, (T)0);
     return std::make_tuple(v1/den, v2/den);
 }
 
@@ -105,7 +107,10 @@ void gmres_single(at::Tensor &solution, int &flag, int &nit, AMENsolveMV<T> &Op,
      //   ts = std::chrono::high_resolution_clock::now();
         T h = torch::norm(q).item<T>();
 
-        q /= h;
+        // exact breakdown: the Krylov space is invariant (or exhausted), nothing more can be gained
+        bool breakdown = !(h > 0);
+        if(!breakdown)
+            q /= h;
 
         HA[k+1][k] = h;
         Q.push_back(q.clone().squeeze());
@@ -122,13 +127,28 @@ void gmres_single(at::Tensor &solution, int &flag, int &nit, AMENsolveMV<T> &Op,
         error = std::abs(betaA[k+1])/b_norm;
        // diff_time = std::chrono::high_resolution_clock::now() - ts;
      // std::cout << " REST " << (double)(std::chrono::duration_cast<std::chrono::microseconds>(diff_time)).count()/1000 << std::endl;
-        if(error<=threshold)
+        if(breakdown && !(std::abs(HA[k][k]) > 0))
+        {
+            // the last direction added nothing (zero column): solve in the space built so far
+            flag = 1;
+            k = k - 1;
+            break;
+        }
+        if(error<=threshold || breakdown)
         {
             flag = 1;
             break;
         }
     }
     k = k<iters ? k : iters-1;
+    if(k < 0){
+        solution = x0.clone().squeeze();
+        nit = 0;
+        delete [] sn;
+        delete [] cs;
+        delete [] e1;
+        return;
+    }
     at::Tensor y = at::linalg_solve(H.index({torch::indexing::Slice(0,k+1), torch::indexing::Slice(0,k+1)}), beta.index({torch::indexing::Slice(0, k+1)}).reshape({-1,1}));
     
     solution = x0.clone().squeeze();
